@@ -7,6 +7,7 @@ package main
 //   C11 P <hex sql> # <expected skeleton> # <projection of types.Config | ERR hexmsg>
 //   C11 R <hex sql layout 1> <hex sql layout 2> <results equal 0/1> <number of result rows> <detail>
 //   C11 T <hex input> <ok|err|panic|timeout>                               rsql.Parse under recover + 2 s limit
+//   C11 F ...                                                              see c11_prefix.go
 import (
 	"encoding/hex"
 	"fmt"
@@ -1085,6 +1086,7 @@ func runC11(tier string, seed uint64, o *Out) error {
 			o.Count("total_mutation_of_malformed")
 		}
 	}
+	mal = append(mal, c11PrefixInputs(rng, o, tier, sqls)...)
 	for _, s := range mal {
 		out, _, _, _ := parseGuard(s, 2*time.Second)
 		o.Line("C11 T %s %s", hx(s), out)
